@@ -92,6 +92,40 @@ check("C04",
       "Coq proof (lia + exhaustive in-kernel evaluation lifted by forallb_forall + symbolic execution of lifted IL) + IL-text and execution correspondence vs the Python lifter/emulator + executable documented-semantics oracle",
       "DESIGN.md 5 C04")
 
+check("C03",
+      "Rendered operands are modelled as (logical operand, addressing mode) pairs exactly as Instruction.render() pairs them (Model/Static.v render_ops, tied to the token text on every run), their meaning by place_of/op_read/op_write (README addressing rules), the IL by Model/Lift.v + Model/IL.v. "
+      "Coq theorems: for each of the six internal addressing modes, every n and every memory the address expression evaluates to 0x100000 + (base+n) mod 256 and reads exactly the addressing registers the mode names; reading an internal operand of width 1-3 yields the little-endian content of the denoted cell and reads exactly addressing registers + the w bytes, writes nothing, changes no register; "
+      "writing one reads only the addressing registers, writes exactly the w denoted bytes with the value's bytes and leaves every other byte and register alone; the mode render() shows for an operand is the mode the default lift uses (both Instruction._addressing_modes). "
+      "Every run: documented access sets (den_access, extracted) vs the bytes the Python emulator reads/writes through the Memory callbacks, for all encodings x random BP/PX/PY/pointers/I.",
+      "Trusted: Coq kernel, extraction, static_cmd.py token parser, exec_cmd.py access recorder. Modelled not verified: render methods, lifts, evaluator. Partial: operand-level theorems cover internal-memory operands (the BP/PX/PY modes the property singles out); pointer operands, counted runs and the instruction-specific lifts (MVL, multi-byte, CMP, TEST, EX) are decided by the access-set comparison on the implementation. Known findings: EXL single cell, counted runs leaving internal memory, BP/PX/PY aliasing; three render/lift disagreements fixed (EX, MVL, JP (n) prefix modes).",
+      "Coq proof (symbolic evaluation of operand IL, lia) + render-text, access-log and documented-access-set correspondence vs the Python lifter/emulator",
+      "DESIGN.md 5 C03")
+
+check("C05",
+      "analyze() is modelled in Model/Static.v (tied to SC62015.get_instruction_info: length + branch list on every encoding), execution by Model/Lift.v + Model/IL.v. "
+      "Coq theorems, for every displacement/target, address and state: all ten relative jumps (JR, JRZ/NZ/C/NC, +n/-n) and the five 16-bit absolute jumps report fall-through = address+length and taken = the computed target, and executing the lifted IL ends with PC equal to the taken target exactly when the flag condition holds and to the fall-through otherwise, every other register, flag and memory byte untouched (run of the label/if IL proved by case analysis on the flag, fuel made explicit). "
+      "Every run: reported targets vs the PC the Python emulator reaches for every valid encoding under the actual flags, 'no branch => address+length', 'elsewhere => a branch is reported', and CALL..RET / CALLF..RETF / IR..RETI pairs around stack-neutral bodies at random and page-edge addresses (resume address, S, F, IMR).",
+      "Trusted: Coq kernel, extraction, harness drivers. Modelled not verified: analyze methods, lifts, evaluator. Partial: theorems cover immediate jumps; calls/returns/interrupt pairs and the completeness clause are decided on the implementation against the model-tied metadata. Known finding: near CALL whose return address is in the next 64K page. Fixed: JP (n) reported address n as target; JP r3/(n) reported no branch.",
+      "Coq proof (symbolic execution of conditional-jump IL) + branch-metadata and execution correspondence vs get_instruction_info / the Python emulator",
+      "DESIGN.md 5 C05")
+
+check("C06",
+      "The Python core is the Coq model of C04 (lifter + evaluator, tied to the code by IL text and execution on every run); the Rust evaluator (5000 lines) is not modelled. "
+      "Coq theorem: for ANY second step function, agreement on every single state implies that runs of any length agree in final state and in the whole sequence of program counters (lockstep, same bytes consumed), by induction on the number of steps; runs compose (N+M = N then M). "
+      "Single-step agreement itself is decided by differential execution: LlamaExecutor::execute over a flat LlamaBus vs Emulator.execute_instruction vs the model, every prefix x opcode x mode-byte structure from random and boundary states (PC, registers, C/Z, low-power state, every written byte), plus generated programs run N steps on both cores.",
+      "Trusted: Coq kernel, extraction, verif-harness exec_cmd.rs, exec_cmd.py. Modelled not verified: the Python core (as C04). NOT modelled: eval.rs - the single-step clause is a correspondence result over the sampled states, so the level is partial. 40 known divergence families are listed in known_findings.json (absolute address not masked to 20 bits, F upper bits, register-pair arithmetic, EXL/MVL counters, BCD runs, RESET vector, ...); four Python-side causes fixed.",
+      "Coq proof (lockstep from single-step agreement, induction) + three-way differential execution (Coq model of the Python core, Python emulator, Rust core)",
+      "DESIGN.md 5 C06")
+
+check("C07",
+      "Scratch registers are explicit in the model (TEMP0-13 in the register file of Model/IL.v). Model/TempSafe.v defines a definite-assignment check of an IL program (annotation per program point, validated, not trusted). "
+      "Coq theorems: soundness - an IL program that passes the check, run from two states that agree on all architectural state but hold arbitrary scratch registers, ends in architecturally equal states (any fuel, loops and branches included; induction over the run with an agreement invariant per program point); "
+      "lifted to one instruction as the emulator executes it (PC update, WAIT fast path, state-dependent fuel); every lift writes a temp before reading it - for no prefix and each of the 15 prefixes, every opcode and every second byte, the decoded instruction's IL passes the check (16 x 65536 decodes evaluated in the kernel); runs split: steps (N+M) = steps N then steps M. "
+      "Every run, on both cores: each encoding executed with random vs zero scratch registers; programs run N+M vs N, architectural state carried into a fresh core, then M (drops call bookkeeping, caches, statics); the same cases re-run later in the same process; tsafe on every generated encoding.",
+      "Trusted: Coq kernel (vm_compute), extraction, harness drivers. Modelled not verified: Python core as C04. Not modelled: Rust call_page_stack/call_depth, PERF_* statics, cached decoder - covered by the split-run and repeat comparisons on the implementation only. The structural sweep fixes operand bytes 3.. to zero; other immediates are validated per run by the extracted checker.",
+      "Coq proof (dataflow soundness by induction over runs + exhaustive in-kernel structural sweep) + differential execution with perturbed hidden state on Python and Rust",
+      "DESIGN.md 5 C07")
+
 NOT_APPLICABLE = {}
 
 def build():
